@@ -201,6 +201,9 @@ func ruleLookup(w *World, r *Report) {
 			n++
 			nt := x.nodeTree(fa.X)
 			f := x.factsAtBlock(ph.Block().Preds[i], newFacts())
+			for _, cf := range edgeFacts(ph, i, 0) {
+				x.addFact(f, cf)
+			}
 			key := fmt.Sprintf("(*Collection).GetItem › descends %s#%d", side, n)
 			nk := keyOfTree(nt)
 			var ok2 bool
